@@ -56,7 +56,9 @@ var bmPlain = []string{"apple", "bravo", "cedar", "delta", "ember", "fjord", "gr
 
 // compatibility / non-ASCII / case material: several raw spellings of one token.
 var bmSpecial = []string{"É", "é", "É", "ﬁ", "fi", "FI", "K", "k", "K", "㎏", "kg", "①", "1", "ｆｕｌｌ", "full",
-	"Straße", "STRASSE", "İ", "中文", "中", "👍🏽", "Ω", "Ω", "ω", "ǅ", "Apple", "APPLE"}
+	"Straße", "STRASSE", "İ", "中文", "中", "👍🏽", "Ω", "Ω", "ω", "ǅ", "Apple", "APPLE",
+	// compatibility characters whose NFKC decomposition contains capitals (lower-casing must come AFTER NFKC)
+	"㎒", "mhz", "MHz", "℡", "tel", "№", "no", "Ⅳ", "iv", "㏃", "bq", "ℌ", "h", "㎩", "pa", "㏔", "mb"}
 
 var bmSeps = []string{" ", " ", " ", " ", " ", ",", ", ", "  ", ".", "\t", "-", "", " ", "\n", "; "}
 
@@ -69,6 +71,11 @@ func genBMVocab(r *core.Rand) *bmVocab {
 	v := &bmVocab{}
 	// the four mandatory specials + " " and "," are always present
 	v.words = append(v.words, "É", "ﬁ", "K")
+	if r.Chance(0.5) {
+		caps := [][2]string{{"㎒", "mhz"}, {"℡", "tel"}, {"№", "no"}, {"Ⅳ", "iv"}, {"㎩", "pa"}}
+		c := caps[r.Intn(len(caps))]
+		v.words = append(v.words, c[0], c[1])
+	}
 	n := r.Range(6, 30)
 	pp := r.Perm(len(bmPlain))
 	for i := 0; i < n && i < len(pp); i++ {
